@@ -38,7 +38,8 @@ type placer struct {
 	dirs  map[string]bool // directories owned by a placement
 	next  int             // placement index {i}
 	group int
-	alone bool // place the next fixture without its companion files (go.sum, _locales, metadata.db)
+	alone bool        // place the next fixture without its companion files (go.sum, _locales, metadata.db)
+	fixOf map[int]int // index in files -> fixture index (main files placed through place)
 }
 
 func newPlacer(t *table) *placer {
@@ -133,6 +134,10 @@ func (p *placer) place(fi int, tm string, d string) int {
 		return -1
 	}
 	idx := len(p.files) - 1
+	if p.fixOf == nil {
+		p.fixOf = map[int]int{}
+	}
+	p.fixOf[idx] = fi
 	for _, c := range comp {
 		c.Group = main.Group
 		p.add(c)
@@ -384,3 +389,29 @@ func pick(rt *rapid.T, n int, label string) int {
 func chance(rt *rapid.T, pct int, label string) bool { return pick(rt, 100, label) < pct }
 
 func oneOf[T any](rt *rapid.T, xs []T, label string) T { return xs[pick(rt, len(xs), label)] }
+
+// addDuplicate installs a second copy of an already placed healthy fixture at another production
+// path of its extractor (the same Chrome extension for two channels, the same assembly or lock file
+// in two projects): two identical packages of one extractor.
+func addDuplicate(rt *rapid.T, p *placer, skip int) {
+	var placed []int
+	for i := range p.files {
+		if _, ok := p.fixOf[i]; ok && i != skip {
+			placed = append(placed, i)
+		}
+	}
+	if len(placed) == 0 {
+		return
+	}
+	src := placed[pick(rt, len(placed), "dup.which")]
+	fi := p.fixOf[src]
+	f := p.t.Fix[fi]
+	def := p.t.Ext[f.Ext].Def
+	start := pick(rt, len(f.Tmpls), "dup.tm")
+	for k := range f.Tmpls {
+		tm := def.Tmpl[f.Tmpls[(start+k)%len(f.Tmpls)]]
+		if p.place(fi, tm, drawDir(rt, fmt.Sprintf("dup.dir%d", k), false)) >= 0 {
+			return
+		}
+	}
+}
